@@ -20,9 +20,9 @@ SeqExts == {"mc-then-none", "ga-then-empty", "mc-then-ga", "none-then-mc"}
 EncCases ==
     { [rp |-> "ascii", ctr |-> c, flags |-> f, at |-> a, idlen |-> IF a THEN 16 ELSE 0, ext |-> e, key |-> "plain"] :
         c \in {"none", "one"}, f \in FlagSets, a \in BOOLEAN, e \in SeqExts } \cup
-    \* EC2 keys that carry optional common parameters (key id, key operations, base IV)
+    \* EC2 keys that carry optional common parameters (key id, key operations, base IV), and EC2 keys on the other curves
     { [rp |-> "ascii", ctr |-> "one", flags |-> f, at |-> TRUE, idlen |-> n, ext |-> e, key |-> k] :
-        f \in FlagSets, n \in {0, 16, 255}, e \in Exts, k \in {"kid", "ops", "iv"} } \cup
+        f \in FlagSets, n \in {0, 16, 255}, e \in Exts, k \in {"kid", "ops", "iv", "p384", "p521", "k256"} } \cup
     { [rp |-> r, ctr |-> c, flags |-> f, at |-> FALSE, idlen |-> 0, ext |-> e, key |-> "plain"] :
         \* the RP ID is hashed exactly as given: mixed case, raw Unicode, empty, trailing dot and long ids included
         r \in {"ascii", "idn", "upper", "unicode", "empty", "dot", "long"}, c \in Counters, f \in FlagSets, e \in Exts } \cup
